@@ -1455,7 +1455,17 @@ class SSHConnection(SSHPacketHandler, asyncio.Protocol):
             error_logger = self.logger
 
         error_logger.debug1('Uncaught exception', exc_info=exc_info)
-        self._force_close(cast(Exception, exc_info[1]))
+
+        exc = cast(Exception, exc_info[1])
+
+        if isinstance(exc, StopIteration):
+            # This can't be set as the exception of a future, which
+            # is how waiters are told why the connection was closed
+            stop_exc = exc
+            exc = RuntimeError('Uncaught StopIteration')
+            exc.__cause__ = stop_exc
+
+        self._force_close(exc)
 
     def protocol_error(self, exc: DisconnectError) -> None:
         """Handle a protocol error found outside of packet processing"""
